@@ -1,4 +1,255 @@
-import DisjointImpls.Validate
+/-
+  C14 — validation of the blocks of a family (`validate.rs`, model `Validate.lean`): property theorems.
+  All proofs are in `Lemmas/ValidateLemmas.lean`.
+
+  Item level (lists of `ItemSig`): the acceptance characterisation of `compare_trait_items` /
+  `compare_inherent_items` on clean lists (`cleanItems`: no unsupported item, no duplicate (kind, name)),
+  and the diagnostic of every single-defect mutation of an accepted input.
+  Family level: the first failing check determines the diagnostic; header checks come before item checks.
+
+  Definitions used in the statements (`Lemmas/ValidateLemmas.lean`, all executable or decidable):
+  `cleanItems`, `dropItem k x xs` (the list without the item of kind `k` called `x`), `TraitAccept`,
+  `InherentAccept`, `traitHeader`, `traitItemsCheck`, `inherentHeader`, `validateFamily`.
+-/
+import DisjointImpls.Lemmas.ValidateLemmas
 namespace DI
-theorem C14_placeholder : (1 : Nat) = 1 := rfl
+
+/-! ## Item level, trait mode -/
+
+/-- acceptance: nothing required is missing, nothing extra, const generics arity agrees -/
+theorem C14_trait_items_ok_iff (ts second : List ItemSig) (hts : cleanItems ts = true)
+    (hs : cleanItems second = true) :
+    compareTraitItems ts second = .ok () ↔
+      (∀ t ∈ ts, t.hasDefault = false → ∃ s ∈ second, s.kind = t.kind ∧ s.ident = t.ident) ∧
+      (∀ s ∈ second, ∃ t ∈ ts, t.kind = s.kind ∧ t.ident = s.ident) ∧
+      (∀ t ∈ ts, ∀ s ∈ second, t.kind = .const → s.kind = .const → s.ident = t.ident → t.arity = s.arity) :=
+  compareTraitItems_ok_iff ts second hts hs
+
+/-- omitting an item that has a trait default is allowed -/
+theorem C14_default_may_be_omitted (ts second : List ItemSig) (t : ItemSig) (hts : cleanItems ts = true)
+    (hs : cleanItems second = true) (hok : compareTraitItems ts second = .ok ()) (ht : t ∈ ts)
+    (hd : t.hasDefault = true) : compareTraitItems ts (dropItem t.kind t.ident second) = .ok () :=
+  compareTraitItems_default_omitted ts second t hts hs hok ht hd
+
+/-- removing the item a required trait item asks for: "Missing in one of the impls" -/
+theorem C14_missing_item (ts second : List ItemSig) (t : ItemSig) (hts : cleanItems ts = true)
+    (hok : compareTraitItems ts second = .ok ()) (ht : t ∈ ts) (hd : t.hasDefault = false) :
+    compareTraitItems ts (dropItem t.kind t.ident second) = .error .missing :=
+  compareTraitItems_missing ts second t hts hok ht hd
+
+/-- an item the trait does not declare, inserted at any position: "Not found in trait definition" -/
+theorem C14_extra_item (ts l1 l2 : List ItemSig) (x : ItemSig) (hok : compareTraitItems ts (l1 ++ l2) = .ok ())
+    (hx : x.kind ≠ .other) (hn : ∀ t ∈ ts, ¬ (t.kind = x.kind ∧ t.ident = x.ident)) :
+    compareTraitItems ts (l1 ++ x :: l2) = .error .notInTrait :=
+  compareTraitItems_extra ts l1 l2 x hok hx hn
+
+/-- a different number of generic parameters on an associated const: "Doesn't match trait definition" -/
+theorem C14_const_arity (ts l1 l2 : List ItemSig) (s s' : ItemSig) (hts : cleanItems ts = true)
+    (hcl : cleanItems (l1 ++ s :: l2) = true) (hok : compareTraitItems ts (l1 ++ s :: l2) = .ok ())
+    (hsk : s.kind = .const) (hk : s'.kind = s.kind) (hi : s'.ident = s.ident) (ha : s'.arity ≠ s.arity) :
+    compareTraitItems ts (l1 ++ s' :: l2) = .error .noMatch :=
+  compareTraitItems_arity ts l1 l2 s s' hts hcl hok hsk hk hi ha
+
+/-! ## Item level, inherent mode -/
+
+/-- `compare_inherent_items` is `compare_trait_items` without defaults, with its own messages -/
+theorem C14_inherent_as_trait (fs second : List ItemSig) :
+    compareInherentItems fs second = inhResult (compareTraitItems (fs.map ItemSig.strict) second) :=
+  compareInherentItems_eq fs second
+
+theorem C14_inherent_items_ok_iff (fs second : List ItemSig) (hf : cleanItems fs = true)
+    (hs : cleanItems second = true) :
+    compareInherentItems fs second = .ok () ↔
+      (∀ f ∈ fs, ∃ s ∈ second, s.kind = f.kind ∧ s.ident = f.ident) ∧
+      (∀ s ∈ second, ∃ f ∈ fs, f.kind = s.kind ∧ f.ident = s.ident) ∧
+      (∀ f ∈ fs, ∀ s ∈ second, f.kind = .const → s.kind = .const → s.ident = f.ident → f.arity = s.arity) :=
+  compareInherentItems_ok_iff fs second hf hs
+
+/-- an item of the first block missing from another block: "Not found in one of the impls" -/
+theorem C14_inherent_missing (fs second : List ItemSig) (f : ItemSig) (hfs : cleanItems fs = true)
+    (hok : compareInherentItems fs second = .ok ()) (hf : f ∈ fs) :
+    compareInherentItems fs (dropItem f.kind f.ident second) = .error .notInOneImpl :=
+  compareInherentItems_missing fs second f hfs hok hf
+
+/-- an item the first block does not have: "Not found in one of the impls" -/
+theorem C14_inherent_extra (fs l1 l2 : List ItemSig) (x : ItemSig)
+    (hok : compareInherentItems fs (l1 ++ l2) = .ok ()) (hx : x.kind ≠ .other)
+    (hn : ∀ f ∈ fs, ¬ (f.kind = x.kind ∧ f.ident = x.ident)) :
+    compareInherentItems fs (l1 ++ x :: l2) = .error .notInOneImpl :=
+  compareInherentItems_extra fs l1 l2 x hok hx hn
+
+/-- a different number of generic parameters on an associated const: "Generics don't match between impls" -/
+theorem C14_inherent_arity (fs l1 l2 : List ItemSig) (s s' : ItemSig) (hfs : cleanItems fs = true)
+    (hcl : cleanItems (l1 ++ s :: l2) = true) (hok : compareInherentItems fs (l1 ++ s :: l2) = .ok ())
+    (hsk : s.kind = .const) (hk : s'.kind = s.kind) (hi : s'.ident = s.ident) (ha : s'.arity ≠ s.arity) :
+    compareInherentItems fs (l1 ++ s' :: l2) = .error .genericsMismatch :=
+  compareInherentItems_arity fs l1 l2 s s' hfs hcl hok hsk hk hi ha
+
+/-! ## Family level -/
+
+/-- the first impl whose header check fails determines the diagnostic, whatever the items are -/
+theorem C14_header_error (trait_ : T) (pre : List T) (item : T) (post : List T) (d : Diag)
+    (hpre : ∀ i ∈ pre, traitHeader trait_ i = .ok ()) (h : traitHeader trait_ item = .error d) :
+    validateTraitImpls trait_ (pre ++ item :: post) = .error d := by
+  rw [validateTraitImpls_eq, firstError_map_error_iff.2 ⟨pre, item, post, rfl, h, hpre⟩]
+
+/-- an impl of another trait: "Doesn't match trait definition" -/
+theorem C14_other_trait (trait_ : T) (pre : List T) (item : T) (post : List T) (p : T)
+    (hpre : ∀ i ∈ pre, traitHeader trait_ i = .ok ()) (hp : implTraitPath item = some p)
+    (hne : lastSegIdent p ≠ traitIdent trait_) :
+    validateTraitImpls trait_ (pre ++ item :: post) = .error .noMatch :=
+  C14_header_error trait_ pre item post _ hpre (by unfold traitHeader; rw [hp]; simp [hne])
+
+/-- `unsafe impl` of a safe trait or the other way round: "Doesn't match trait definition" -/
+theorem C14_unsafety (trait_ : T) (pre : List T) (item : T) (post : List T) (p : T)
+    (hpre : ∀ i ∈ pre, traitHeader trait_ i = .ok ()) (hp : implTraitPath item = some p)
+    (hid : lastSegIdent p = traitIdent trait_) (hne : traitUnsafety trait_ ≠ implUnsafety item) :
+    validateTraitImpls trait_ (pre ++ item :: post) = .error .noMatch :=
+  C14_header_error trait_ pre item post _ hpre (by unfold traitHeader; rw [hp]; simp [hid, hne])
+
+/-- an inherent impl among trait impls: "Expected trait impl, found inherent impl" -/
+theorem C14_inherent_in_trait_mode (trait_ : T) (pre : List T) (item : T) (post : List T)
+    (hpre : ∀ i ∈ pre, traitHeader trait_ i = .ok ()) (hp : implTraitPath item = none) :
+    validateTraitImpls trait_ (pre ++ item :: post) = .error .expectedTraitImpl :=
+  C14_header_error trait_ pre item post _ hpre (by unfold traitHeader; rw [hp])
+
+/-- a trait impl among inherent impls: "Expected inherent impl but found trait" -/
+theorem C14_trait_in_inherent_mode (pre : List T) (item : T) (post : List T) (p : T)
+    (hpre : ∀ i ∈ pre, implTraitPath i = none) (hp : implTraitPath item = some p) :
+    validateInherentImpls (pre ++ item :: post) = .error .expectedInherent := by
+  rw [validateInherentImpls_eq, firstError_map_error_iff.2 ⟨pre, item, post, rfl,
+    by unfold inherentHeader; rw [hp], fun i hi => by unfold inherentHeader; rw [hpre i hi]⟩]
+
+/-- header checks come first: if any header fails, the result is a header diagnostic, even if the items of an
+    earlier impl are wrong (the two loops of `validate_trait_impls`) -/
+theorem C14_headers_before_items (trait_ : T) (impls : List T)
+    (h : ∃ item ∈ impls, traitHeader trait_ item ≠ .ok ()) :
+    validateTraitImpls trait_ impls = .error .expectedTraitImpl ∨
+    validateTraitImpls trait_ impls = .error .noMatch := by
+  rw [validateTraitImpls_eq]
+  cases hf : firstError (impls.map (traitHeader trait_)) with
+  | ok u =>
+    cases u
+    obtain ⟨item, hi, hne⟩ := h
+    exact absurd (firstError_map_ok_iff.1 hf item hi) hne
+  | error d =>
+    obtain ⟨pre, x, post, _, hx, _⟩ := firstError_map_error_iff.1 hf
+    rcases traitHeader_cases trait_ x with h1 | h1 | h1
+    · rw [h1] at hx; cases hx
+    · rw [h1] at hx; cases hx; exact Or.inl rfl
+    · rw [h1] at hx; cases hx; exact Or.inr rfl
+
+/-- with all headers fine, the first impl whose items are rejected determines the diagnostic -/
+theorem C14_items_error (trait_ : T) (pre : List T) (item : T) (post : List T) (d : Diag)
+    (hh : ∀ i ∈ pre ++ item :: post, traitHeader trait_ i = .ok ())
+    (hpre : ∀ i ∈ pre, traitItemsCheck trait_ i = .ok ()) (h : traitItemsCheck trait_ item = .error d) :
+    validateTraitImpls trait_ (pre ++ item :: post) = .error d := by
+  rw [validateTraitImpls_eq, firstError_map_ok_iff.2 hh]
+  exact firstError_map_error_iff.2 ⟨pre, item, post, rfl, h, hpre⟩
+
+/-- acceptance of a family: exactly when every header and every item list is accepted -/
+theorem C14_family_ok_iff (trait_ : T) (impls : List T) :
+    validateTraitImpls trait_ impls = .ok () ↔
+      (∀ i ∈ impls, traitHeader trait_ i = .ok ()) ∧ (∀ i ∈ impls, traitItemsCheck trait_ i = .ok ()) := by
+  rw [validateTraitImpls_eq]
+  cases hf : firstError (impls.map (traitHeader trait_)) with
+  | ok u =>
+    cases u
+    simp only
+    rw [firstError_map_ok_iff]
+    exact ⟨fun h => ⟨firstError_map_ok_iff.1 hf, h⟩, fun h => h.2⟩
+  | error d =>
+    simp only [reduceCtorEq, false_iff]
+    intro h
+    rw [firstError_map_ok_iff.2 h.1] at hf; cases hf
+
+/-- no false positive: impls of the right trait with the right unsafety whose items satisfy the acceptance
+    characterisation are accepted -/
+theorem C14_no_false_positive (trait_ : T) (impls : List T) (hts : cleanItems (traitItems trait_) = true)
+    (hh : ∀ i ∈ impls, ∃ p, implTraitPath i = some p ∧ lastSegIdent p = traitIdent trait_ ∧
+      traitUnsafety trait_ = implUnsafety i)
+    (hi : ∀ i ∈ impls, cleanItems (implItemSigs i) = true ∧ TraitAccept (traitItems trait_) (implItemSigs i)) :
+    validateTraitImpls trait_ impls = .ok () := by
+  rw [C14_family_ok_iff]
+  refine ⟨fun i h => (traitHeader_ok_iff trait_ i).2 (hh i h), fun i h => ?_⟩
+  exact (compareTraitItems_ok_iff _ _ hts (hi i h).1).2 (hi i h).2
+
+/-- inherent family: every other block is compared with the first one -/
+theorem C14_inherent_family_ok_iff (first : T) (rest : List T) :
+    validateInherentImpls (first :: rest) = .ok () ↔
+      (∀ i ∈ first :: rest, implTraitPath i = none) ∧
+      (∀ i ∈ rest, compareInherentItems (implItemSigs first) (implItemSigs i) = .ok ()) := by
+  have hhdr : ∀ i : T, inherentHeader i = .ok () ↔ implTraitPath i = none := by
+    intro i; unfold inherentHeader; cases implTraitPath i <;> simp
+  rw [validateInherentImpls_eq]
+  cases hf : firstError ((first :: rest).map inherentHeader) with
+  | ok u =>
+    cases u
+    simp only
+    rw [firstError_map_ok_iff]
+    exact ⟨fun h => ⟨fun i hi => (hhdr i).1 (firstError_map_ok_iff.1 hf i hi), h⟩, fun h => h.2⟩
+  | error d =>
+    simp only [reduceCtorEq, false_iff]
+    intro h
+    rw [firstError_map_ok_iff.2 (fun i hi => (hhdr i).2 (h.1 i hi))] at hf; cases hf
+
+/-- atomic: `validateAll` answers `.ok ()` or exactly one diagnostic — that of the first failing family -/
+theorem C14_atomic (trait_ : Option T) (fams : List (List T)) (d : Diag)
+    (h : validateAll trait_ fams = .error d) :
+    ∃ pre fam post, fams = pre ++ fam :: post ∧ validateFamily trait_ fam = .error d ∧
+      ∀ f ∈ pre, validateFamily trait_ f = .ok () := by
+  rw [validateAll_eq] at h
+  exact firstError_map_error_iff.1 h
+
+theorem C14_all_ok_iff (trait_ : Option T) (fams : List (List T)) :
+    validateAll trait_ fams = .ok () ↔ ∀ fam ∈ fams, validateFamily trait_ fam = .ok () := by
+  rw [validateAll_eq]; exact firstError_map_ok_iff
+
+/-! ## Non-vacuity -/
+
+section Examples
+private def cN (a : Nat) : ItemSig := ⟨.const, "N", a, false⟩
+private def tA : ItemSig := ⟨.type, "A", 0, false⟩
+private def fD : ItemSig := ⟨.fn, "f", 0, true⟩      -- has a default body
+private def fX : ItemSig := ⟨.fn, "g", 0, false⟩
+
+example : cleanItems [cN 0, tA, fD] = true ∧ cleanItems [tA, cN 0] = true ∧
+    compareTraitItems [cN 0, tA, fD] [tA, cN 0] = .ok () ∧                       -- default omitted, other order
+    compareTraitItems [cN 0, tA, fD] [fD, tA, cN 0] = .ok () ∧
+    compareTraitItems [cN 0, tA, fD] [tA] = .error .missing ∧
+    compareTraitItems [cN 0, tA, fD] [tA, fX, cN 0] = .error .notInTrait ∧
+    compareTraitItems [cN 0, tA, fD] [tA, cN 1] = .error .noMatch ∧
+    compareTraitItems [cN 0, tA, fD] [tA, cN 0, ⟨.other, "", 0, false⟩] = .error .notSupported := by decide
+
+example : compareInherentItems [cN 0, tA] [tA, cN 0] = .ok () ∧
+    compareInherentItems [cN 0, tA] [tA] = .error .notInOneImpl ∧
+    compareInherentItems [cN 0, tA] [tA, fX, cN 0] = .error .notInOneImpl ∧
+    compareInherentItems [cN 0, tA] [tA, cN 2] = .error .genericsMismatch := by decide
+
+/-- `C14_missing_item` / `C14_default_may_be_omitted` are about `dropItem` -/
+example : dropItem .const "N" [tA, cN 0] = [tA] ∧ dropItem .fn "f" [fD, tA, cN 0] = [tA, cN 0] := by decide
+
+/-- the clean-list hypothesis of the characterisation is needed: with a duplicate in the impl the second copy
+    is left over -/
+example : cleanItems [tA, tA] = false ∧ compareTraitItems [tA] [tA, tA] = .error .notInTrait ∧
+    (∀ s ∈ [tA, tA], ∃ t ∈ [tA], t.kind = s.kind ∧ t.ident = s.ident) := by decide
+
+/-- header order: the second impl's header is checked before the first impl's items -/
+example :
+    let tr : T := .node "ItemTrait" [] [.node "L" [] [], .node "V" [] [], .node "None" [] [], .node "None" [] [],
+      .node "None" [] [], .node "Ident" ["Kita"] [], .node "G" [] [], .node "None" [] [], .node "List" [] [],
+      .node "List" [] [.node "TraitItem::Const" [] [.node "A" [] [], .node "Ident" ["N"] [], .node "G" [] [],
+        .node "Ty" [] [], .node "None" [] []]]]
+    let badItems : T := .node "ItemImpl" [] [.node "A" [] [], .node "None" [] [], .node "None" [] [], .node "G" [] [],
+      .node "Some" [] [.node "Tuple" [] [.node "None" [] [], .node "Path" [] [.node "IgnL" [] [.node "None" [] []],
+        .node "List" [] [.node "PathSegment" [] [.node "Ident" ["Kita"] [], .node "PathArguments::None" [] []]]]]],
+      .node "S" [] [], .node "List" [] []]
+    let inherent : T := .node "ItemImpl" [] [.node "A" [] [], .node "None" [] [], .node "None" [] [], .node "G" [] [],
+      .node "None" [] [], .node "S" [] [], .node "List" [] []]
+    traitItemsCheck tr badItems = .error .missing ∧
+    validateTraitImpls tr [badItems] = .error .missing ∧
+    validateTraitImpls tr [badItems, inherent] = .error .expectedTraitImpl ∧
+    validateAll (some tr) [[], [badItems, inherent], [badItems]] = .error .expectedTraitImpl := by decide
+end Examples
+
 end DI
